@@ -8,6 +8,7 @@ import KinModel.Lemmas.C06Text
 import KinModel.Lemmas.C06Dflt
 import KinModel.Gen.BodyDecoders
 import KinModel.Gen.BodyEncoders
+import KinModel.Gen.MediaTypeMatch
 namespace KinModel.Body
 
 /-! ## (T) the decoder registry of the model is the one the source builds -/
@@ -33,6 +34,61 @@ theorem registry_routes :
     lookup "multipart/form-data".toList registry = some .multipart ∧
     lookup "text/plain".toList registry = some .plain ∧
     (keys registry).Nodup := by decide
+
+/-! ## (T2) the media-type matching code of the model is the code of the source -/
+
+def stepOfGen : Gen.MatchStep → Option Step
+  | .emptyRet k => some (.emptyRet k.toList)
+  | .tryMime => some .tryMime
+  | .cutFirst c => some (.cutFirst c)
+  | .cutFirstOrNil c s => some (.cutFirstOrNil c s.toList)
+  | .retKey k => some (.retKey k.toList)
+  | .prefixBefore c => some (.prefixBefore c)
+  | .unrecognised _ => none
+
+/-- every statement of `Content.Get` and of `parseMediaType` was read (no `unrecognised` row), and statement by
+statement they are the programs the model was written from -/
+theorem matching_code_is_source :
+    Gen.contentGetSteps.map stepOfGen = contentGetProgram.map some ∧
+    Gen.parseMediaTypeSteps.map stepOfGen = parseMediaTypeProgram.map some := by decide
+
+theorem majorType_eq_cut (m : Str) : majorType m = if m.contains '/' then some (cutAt '/' m) else none := by
+  induction m with
+  | nil => rfl
+  | cons c cs ih =>
+    unfold majorType cutAt
+    by_cases hc : c = '/'
+    · simp [hc]
+    · have hc' : ('/' == c) = false := by simpa using fun h => hc h.symm
+      simp only [hc, if_false, ih, List.contains_cons, hc', Bool.false_or, ne_eq, not_false_eq_true, decide_true,
+        List.takeWhile_cons_of_pos]
+      cases cs.contains '/' <;> simp [cutAt]
+
+/-- **the model of `Content.Get` is the meaning of that program**, for every content map and every header text;
+and `base` (the model of `parseMediaType`) is the meaning of the one-step program -/
+theorem contentGet_is_program {α : Type} (c : List (Str × α)) (mime : Str) :
+    runSteps c contentGetProgram mime = contentGet c mime := by
+  unfold contentGetProgram contentGet
+  simp only [runSteps]
+  by_cases hm : mime = []
+  · simp [hm]
+  · simp only [hm, if_false]
+    cases lookup mime c with
+    | some v => rfl
+    | none =>
+      simp only
+      have hb : cutAt ';' mime = base mime := rfl
+      rw [hb]
+      cases lookup (base mime) c with
+      | some v => rfl
+      | none =>
+        simp only
+        rw [majorType_eq_cut]
+        cases (base mime).contains '/' with
+        | false => simp
+        | true => simp only [if_true]
+
+theorem base_is_program (m : Str) : base m = cutAt ';' m := rfl
 
 /-! ## (a) media-type selection -/
 
